@@ -15,13 +15,15 @@ LEVEL_TEXT = ("Bounded contract checking of the statement on the real Pipeline: 
               "functions once each after their dependencies. The call path (PipeFunc.__call__, Pipeline._run, "
               "_get_func_args) manipulates networkx graphs, weak references and cached properties, which the proof rung "
               "cannot model; the property itself is decided on the bounded rung. Proved part (pyvc, listed under "
-              "functions_under_contract): the two leaf helpers on that path, at_least_tuple and _default_output_picker "
-              "(the i-th element of a tuple result is handed out for the i-th output name). Category 'other' = a few "
+              "functions_under_contract): at_least_tuple, _default_output_picker (the i-th element of a tuple result "
+              "is handed out for the i-th output name) and _update_all_results (a tuple result is entered under every "
+              "one of its names, each picked by that name, every other entry untouched; the output_picker is an "
+              "assumed pure callable). Category 'other' = a few "
               "discharged leaf contracts + bounded checking of the statement; it is not a proof of C02.")
 LEVEL_NOTE = ("Bounds: 1..4 functions (quick 1..3 for the all-orders part), <=3 parameters each, roots {x,y,z}; values are "
               "tagging strings. Trusted: the reference evaluator rtc/dag.py::refeval; networkx.")
 TECHNIQUE = ("bounded contract checking of the statement-level contract (tagging bodies + reference evaluator); leaf "
-             "helpers at_least_tuple/_default_output_picker discharged by z3")
+             "at_least_tuple, _default_output_picker and _update_all_results discharged by z3")
 EXPLANATION = LEVEL_TEXT
 RULE = ("random DAGs from rtc.dag.gen_dag; per DAG all outputs x all arg_combinations x all listing orders (n<=3) x "
         "{pipeline(), run, func}; distinct = distinct (DAG, order, output, combination); non-trivial = the evaluation "
@@ -31,8 +33,9 @@ ASSUMPTIONS = ["user functions deterministic", "values compared as strings"]
 
 
 def registry():
-    from contracts import misc
-    return {**{c.short: c for c in misc.ALL}, **{c.name: c for c in misc.ALL}}
+    from contracts import misc, pipeline_call
+    allc = misc.ALL + pipeline_call.ALL
+    return {**{c.short: c for c in allc}, **{c.name: c for c in allc}}
 
 
 def _alt_gen(rng, tier):
@@ -50,7 +53,10 @@ def _dop_gen(rng, tier):
 def proof_items():
     from contracts import misc
     from vf.driver import ProofItem
-    return [ProofItem(misc.at_least_tuple, gen=_alt_gen), ProofItem(misc.default_output_picker, gen=_dop_gen)]
+    from contracts import pipeline_call
+    return [ProofItem(misc.at_least_tuple, gen=_alt_gen), ProofItem(misc.default_output_picker, gen=_dop_gen),
+            # routing tuple outputs by name: how a function's result enters the results of one evaluation
+            ProofItem(pipeline_call.update_all_results, gen=pipeline_call.gen)]
 
 
 def _cases(tier, rng):
